@@ -41,6 +41,7 @@
 #include <pthread.h>
 #include <time.h>
 #include <unistd.h>
+#include <sys/syscall.h>
 
 #define MAXW 12
 #define NES 3
@@ -110,6 +111,7 @@ static ABT_pool g_espool[NES];
 static ABT_cond g_cond;
 static ABT_mutex g_mutex;
 static volatile int g_case_over;
+static long g_now_ticks;
 
 typedef struct {
     int id, kind, timed;
@@ -233,12 +235,28 @@ static int in_list(int k)
     return 0;
 }
 
+static void diag_stuck(int k, const char *why)
+{
+    waiter_t *w = &g_w[k];
+    ABT_thread_state st = -1;
+    ABT_bool mlocked = ABT_FALSE;
+    if (w->kind && w->nth)
+        ABT_thread_get_state(w->th[w->nth - 1], &st);
+    mlocked = ABTI_mutex_is_locked(ABTI_mutex_get_ptr(g_mutex));
+    fprintf(stderr,
+            "c19 harness: waiter %d (%s, %s, deadline %ld, now %ld) %s: in_list=%d ult_state=%d "
+            "mutex_locked=%d bound=%.2f\n",
+            k, w->kind ? "ULT" : "pthread", w->timed ? "timed" : "untimed", w->deadline,
+            g_now_ticks, why, in_list(k), (int)st, (int)mlocked, bound_secs());
+}
+
 /* wait until waiter k has returned; 0 if it did not within the bound */
 static int wait_returned(int k)
 {
     double t0 = real_now();
     while (__atomic_load_n(&g_w[k].status, __ATOMIC_ACQUIRE) < 2) {
         if (real_now() - t0 > bound_secs()) {
+            diag_stuck(k, "did not return in time");
             note_stuck();
             return 0;
         }
@@ -280,8 +298,6 @@ static void start_waiter(int k, long d)
     }
 }
 
-static long g_now_ticks;
-
 static void do_wl(char *line)
 {
     char *save1, *save2;
@@ -318,8 +334,18 @@ static void do_wl(char *line)
         if (nf < 1)
             continue;
         if (op == 'E') {
-            if (x < 0 || x >= g_nw || g_w[x].status == 1)
+            if (x < 0 || x >= g_nw)
                 VH_DIE("bad E");
+            if (g_w[x].status == 1) {
+                /* the case file never restarts a waiter that is still waiting
+                 * according to the model: the implementation is behind */
+                diag_stuck((int)x, "is still inside its previous wait at its next E");
+                if (!wait_returned((int)x)) {
+                    printf("WL %s STUCK%ld | %s\n", obs, x, dumps);
+                    fflush(stdout);
+                    _exit(4);
+                }
+            }
             start_waiter((int)x, y);
             if (g_w[x].timed && y <= g_now_ticks)
                 wait_returned((int)x);
@@ -335,13 +361,15 @@ static void do_wl(char *line)
                 if (ids[i] >= 0)
                     wait_returned(ids[i]);
         } else if (op == 'T') {
+            /* who is queued is sampled BEFORE the clock moves: afterwards a
+             * fast waiter has already unlinked itself but not yet returned */
+            int ids[40], n = locked_walk(ids, NULL, -1), i;
             if (x > g_now_ticks)
                 g_now_ticks = x;
             set_clock_ticks(g_now_ticks);
-            for (k = 0; k < g_nw; k++)
-                if (g_w[k].status == 1 && g_w[k].timed && g_w[k].deadline <= g_now_ticks &&
-                    in_list(k))
-                    wait_returned(k);
+            for (i = 0; i < n; i++)
+                if (ids[i] >= 0 && g_w[ids[i]].timed && g_w[ids[i]].deadline <= g_now_ticks)
+                    wait_returned(ids[i]);
         } else if (op == 'X') {
             ABTI_cond *p_cond = ABTI_cond_get_ptr(g_cond);
             int ids[40], n = locked_walk(ids, NULL, -1);
@@ -352,12 +380,12 @@ static void do_wl(char *line)
             nap_us(2500);
             ABTI_waitlist_signal(ABTI_local_get_local(), &p_cond->waitlist);
             ABTD_spinlock_release(&p_cond->lock);
+            int i;
             if (n > 0 && ids[0] >= 0)
                 wait_returned(ids[0]);
-            for (k = 0; k < g_nw; k++)
-                if (g_w[k].status == 1 && g_w[k].timed && g_w[k].deadline <= g_now_ticks &&
-                    in_list(k))
-                    wait_returned(k);
+            for (i = 1; i < n; i++)
+                if (ids[i] >= 0 && g_w[ids[i]].timed && g_w[ids[i]].deadline <= g_now_ticks)
+                    wait_returned(ids[i]);
         } else {
             VH_DIE("bad action '%s'", a);
         }
@@ -386,7 +414,7 @@ static void do_wl(char *line)
                 pending++;
         if (pending)
             nap_us(200);
-    } while (pending && real_now() - t0 < 5.0);
+    } while (pending && real_now() - t0 < (g_stuck_seen ? 0.6 : 5.0));
     printf("WL %s | %s\n", obs, dumps);
     fflush(stdout);
     if (pending) {
@@ -414,6 +442,7 @@ static struct {
     int op, tail, poolkind;
     double secs;
     volatile int done;
+    volatile int tid; /* kernel thread id of the popper, set when it starts */
     ABT_thread got_thread;
     ABT_unit got_unit;
 } g_pw;
@@ -426,6 +455,7 @@ static void unit_fn(void *arg)
 static void *popper_pthread(void *arg)
 {
     (void)arg;
+    __atomic_store_n(&g_pw.tid, (int)syscall(SYS_gettid), __ATOMIC_RELEASE);
     if (g_pw.op == 'w') {
         ABT_thread th = ABT_THREAD_NULL;
         ABT_pool_pop_wait_thread_ex(g_P, &th, g_pw.secs,
@@ -452,12 +482,39 @@ static int unit_id(ABT_thread th)
     return -1;
 }
 
+/* 1 if the kernel thread is sleeping (blocked in a futex), from /proc */
+static int thread_sleeping(int tid)
+{
+    char path[64], buf[512];
+    sprintf(path, "/proc/self/task/%d/stat", tid);
+    FILE *f = fopen(path, "r");
+    if (!f)
+        return 0;
+    size_t n = fread(buf, 1, sizeof(buf) - 1, f);
+    fclose(f);
+    buf[n] = 0;
+    char *p = strrchr(buf, ')');
+    return p && p[1] == ' ' && p[2] == 'S';
+}
+
 /* let the popper run at least one full iteration that sees the current state */
 static void pw_settle(void)
 {
     double t0 = real_now();
     if (g_pw.poolkind == 'W') {
-        nap_us(1500);
+        /* fifo_wait.c has no clock calls to count: wait until the popper has
+         * returned or is blocked inside pthread_cond_timedwait */
+        while (!__atomic_load_n(&g_pw.done, __ATOMIC_ACQUIRE)) {
+            int tid = __atomic_load_n(&g_pw.tid, __ATOMIC_ACQUIRE);
+            if (tid && thread_sleeping(tid)) {
+                nap_us(300);
+                if (thread_sleeping(tid))
+                    break;
+            }
+            if (real_now() - t0 > bound_secs())
+                break;
+            nap_us(50);
+        }
         return;
     }
     long c0 = __atomic_load_n(&g_clock_calls, __ATOMIC_ACQUIRE);
